@@ -1,0 +1,17 @@
+//go:build verif
+
+package proxy
+
+import "sort"
+
+// VerifNames returns the registered proxy names, read under the manager's lock.
+func (pm *Manager) VerifNames() []string {
+	pm.mu.RLock()
+	defer pm.mu.RUnlock()
+	out := make([]string, 0, len(pm.pxys))
+	for n := range pm.pxys {
+		out = append(out, n)
+	}
+	sort.Strings(out)
+	return out
+}
